@@ -358,6 +358,41 @@ def check(run):
     # ---------------------------------------------------------------- O7 forwards
     _forwards(run, ix)
 
+    # ---------------------------------------------------------------- O10 the overrides are the mesh's own objects
+    run.rule("O10", "override setters store their own copy: the array kept as `center_mass` is built by a copying constructor, not the caller's array "
+                    "(an array the caller can still write to changes the override behind the content hash: the centre reported and the cached "
+                    "mass / inertia then belong to different overrides)")
+    import re as _re
+
+    from ..idioms import keyed_stores
+    T_ = ix.cls("trimesh.base.Trimesh")
+    n10 = 0
+    for name_ in ("center_mass",):
+        st_ = T_.setters.get(name_)
+        if st_ is None:
+            continue
+        for key_, val_, where_ in keyed_stores(ix, st_, container=f"{st_.params[0]}._data", strip=False):
+            if key_ != name_:
+                continue
+            n10 += 1
+            fresh = (_re.match(r"numpy\.array\(", val_) and "copy=False" not in val_) or val_.endswith(".copy()") \
+                or _re.match(r"(numpy\.copy|copy\.deepcopy|copy\.copy)\(", val_)
+            alias = _re.fullmatch(r"(?:numpy\.(?:asanyarray|asarray|ascontiguousarray|require|asfarray)\()?P_\w+(?:, [^()]*)?\)?", val_) is not None \
+                or (_re.match(r"numpy\.array\(", val_) and "copy=False" in val_)
+            if fresh:
+                run.instance("O10", where_, f"`{name_}` override stored as a copy: `{val_[:80]}`", True)
+            elif alias:
+                run.instance("O10", where_, f"`{name_}` override stored as `{val_[:80]}`", False)
+                run.violation("O10", where_, f"the `{name_}` setter stores `{val_[:90]}`: for a float64 array that is the caller's own array (no copy), so a later "
+                                             f"write by the caller changes the override without the mesh noticing - center_mass and the cached mass "
+                                             f"properties then disagree", key=key_of("C03-O10", name_, "alias"))
+            else:
+                run.instance("O10", where_, f"`{name_}` override stored as `{val_[:80]}` - form not recognised, NOT decided", True, nontrivial=False)
+                run.assume(f"{name_} setter: stored value `{val_[:60]}` not classified as copy or alias")
+    if n10 == 0:
+        run.instance("O10", T_.where, "no store of the center_mass override found in its setter - NOT decided", True, nontrivial=False)
+        run.assume("center_mass setter: store of the override not found (shape not recognised)")
+
     for a_ in sorted(assumptions | set(it.assumptions) | set(itf.assumptions)):
         run.assume(a_)
     run.assume("real arithmetic (floating-point rounding is outside the claim)")
